@@ -507,6 +507,19 @@ def runC16mux (t : Tier) : Emit Unit := do
 
 def runC01 (t : Tier) : Emit Unit := do
   runReuse "C01" t 8
+  -- elementary PIDs at every single-bit distance from the PMT PID 0x1000 (and from 0x100, where automatic assignment
+  -- starts): whatever the program map uses to remember the PMT PID, a neighbour is not a table PID
+  for base in [0x1000, 0x100] do
+    let nbrs := ((List.range 13).map fun k => base ^^^ (2 ^ k)).filter fun p => p != 0 && p != 0x1000 && p < 0x1fff && p ≥ 0x20
+    let mut ops : List MuxOp := nbrs.map fun p => MuxOp.add { elementaryPID := p, streamType := 0x0f }
+    ops := ops ++ [.setPCR (nbrs.headD 0x100)]
+    for p in nbrs do
+      let d ← liftGen (genData p false)
+      ops := ops ++ [.data { d with pes := { d.pes with data := d.pes.data.take 40 } }]
+    for p in nbrs do
+      let d ← liftGen (genData p false)
+      ops := ops ++ [.data { d with pes := { d.pes with data := d.pes.data.take 40 } }]
+    emit "C01" (muxDemuxCase { period := 5, ops := ops } "pids-one-bit-from-the-pmt-pid")
   -- payload sizes around the 16-bit PES_packet_length limit, one unit per history (every run, whatever the seed)
   for rep in [0:(if t.quick then 1 else 4)] do
     for delta in [0, 1, 2, 65535] do
